@@ -173,3 +173,35 @@ META['C08'] = dict(
     technique='runtime monitoring: recover + CPU-time hang watchdog over killable worker processes running the real handlers on protocol-aware mutated traffic',
     level_text='Exploration: ~4*10^5 (quick) / ~2*10^7 (thorough) frames and decoder inputs dispatched exactly as the documented packet loop does; a panic, fatal error or a case burning >= 5 CPU-seconds refutes.',
     level_note='A returned error is acceptable. Trusts the watchdog criterion and the generators (handler entry counts in the evidence show what was reached).')
+
+_HOSTS_RULE = ('histories over a small universe (MACs own/router/A/B/multicast; IPv4 three on-LAN, own, router, off-LAN, 0.0.0.0, LAN broadcast; IPv6 two LLA, two GUA, '
+               'multicast source; names from the five sources), each run in its own synctest bubble on virtual time with the session created inside: steps are '
+               'IPv4/ARP/IPv6 frames (Parse then Notify), DHCPv4Update + DHCP frame + Notify, bare DHCP frames, Update*Name, Capture/Release, SetDHCPv4IPOffer, and '
+               'Advance(20 s .. Purge+1 min) which sleeps in the bubble so that the session\'s own minute ticker runs the real purge. Bounded-exhaustive over a 24-operation '
+               'alphabet to depth 3 (quick, 13 824 histories) / 4 (thorough, 331 776) plus PRNG histories of length 20/40 under three deadline configurations. '
+               'After every step: C04 model comparison of the (MAC, IP, online) set and FindIP/IPAddrs/FindByMAC/FindMACEntry/IsCaptured, C05 invariants I1-I7 on the exported '
+               'tables, C06 notification obligations. Non-trivial = a history that changed the tracked set; distinct = multiset of operation kinds (capped at 3 each)')
+for _p in ('C04', 'C05', 'C06'):
+    PROPS[_p] = dict(
+        runs=[run('plain')], shards=16, watchdog=True, level='exploration', workload='hosts', rule=_HOSTS_RULE,
+        assumptions=['the reference model of DESIGN appendix A (written from the statement; executable, stepped next to the real session)',
+                     'testing/synctest virtual time: timers fire in order, the bubble is quiescent at every comparison (synctest.Wait)',
+                     'events are offset by 7 s so no comparison lands on a minute tick; ARP frames use equal Ethernet source and ARP sender'],
+        exhaustive={'quick': True, 'thorough': True}, exhaustive_note='exhaustive only for the 24-operation alphabet up to exhaustive_depth (observed counter); the random part is sampled',
+        obs_max=['exhaustive_depth'],
+        min_obs={'quick': {'notifications_observed': 5000, 'ticks': 20000, 'invariant_evaluations': 50000, 'age_outs': 500, 'rebinds': 500, 'ip_changes': 500, 'deletes': 500},
+                 'thorough': {'notifications_observed': 5000}},
+        timeout={'quick': 1200, 'thorough': 8*3600},
+    )
+META['C04'] = dict(
+    technique='runtime monitoring: executable reference model stepped next to the real session on virtual time (synctest), bounded-exhaustive + random histories',
+    level_text='Exploration, exhaustive over a 24-operation alphabet to depth 3 (quick) / 4 (thorough): after every step of every history the tracked (MAC, IP, online) set and the query API are compared with a reference model of the discovery, IP-change, re-binding and ageing rules; the real minute ticker drives purge on virtual time.',
+    level_note='Trusted base: the model (appendix A, ~250 lines, no import of the library) and synctest virtual time. Model mismatches are reported only under C04.')
+META['C05'] = dict(
+    technique='runtime monitoring: structural invariants I1-I7 asserted on the live exported tables at every quiescent point',
+    level_text='Exploration: invariants evaluated after every step of the C04 histories (>= 5*10^4 evaluations in quick) and at the barriers of the C09 stress.',
+    level_note='Invariants are checked only at quiescence (bubble idle / all harness goroutines parked), never mid-update.')
+META['C06'] = dict(
+    technique='runtime trace-specification monitor over the notification channel (obligations derived from the reference model), virtual time',
+    level_text='Exploration (same histories as C04): every notification received after a step must be justified by an open obligation, carry the tracked address/flag/names/router flag, respect the offline-before-online order, and every obligation must be discharged; repeat traffic must be silent.',
+    level_note='Order inside one purge tick is compared as a multiset (the library iterates a map). Each name field may equal the host-level or the MAC-level tracked value.')
